@@ -20,6 +20,9 @@ package main
 //           CHILD PROCESS: stack exhaustion is a fatal error, not a recoverable panic.
 //   arch32  the library built for GOARCH=386 (int is 32 bits wide) and run on length fields around 2^31 and 2^32
 //           (skipped, and recorded as skipped, where a 32-bit binary cannot be built or executed).
+//   extent  XML scalar elements with every kind of content at every depth: structure extents (hostile_extent.go).
+//   repeat  JSON members / XML attributes that duplicate tag, type, value exactly or up to letter case, every
+//           document decoded many times: same bytes, same result (hostile_extent.go).
 
 import (
 	"bufio"
@@ -60,7 +63,7 @@ func init() {
 	}
 	register(&Engine{
 		Name: "hostile",
-		Rule: "entry points and input classes beyond the codec engines: ServeHTTP in-process (3 content types x malformed binary/XML/JSON bodies, also crossed; hostile Content-Length/method/limit cases) judged against the direct decode of the same bytes; structural XML/JSON mutations (namespaces, duplicate attributes/keys, comments/CDATA/PI/DOCTYPE, children under leaves, thousands of attributes/siblings, wrong JSON kinds at any depth) into typed and generic targets; random/framed/spliced bytes into every typed binary target; nesting up to the 131 071 levels that fit 1 MiB and very wide documents in a child process; the library built for GOARCH=386 on lengths around 2^31/2^32; distinct = distinct line; nontrivial = all",
+		Rule: "entry points and input classes beyond the codec engines: ServeHTTP in-process (3 content types x malformed binary/XML/JSON bodies, also crossed; hostile Content-Length/method/limit cases) judged against the direct decode of the same bytes; structural XML/JSON mutations (namespaces, duplicate attributes/keys, comments/CDATA/PI/DOCTYPE, children under leaves, thousands of attributes/siblings, wrong JSON kinds at any depth) into typed and generic targets; random/framed/spliced bytes into every typed binary target; nesting up to the 131 071 levels that fit 1 MiB and very wide documents in a child process; the library built for GOARCH=386 on lengths around 2^31/2^32; XML scalar elements given every kind of content at every depth (alone and with trailing unknown elements) judged against the same document without the content and against an independent token walk; JSON members / XML attributes repeating tag/type/value exactly or up to letter case, each document decoded 16-200 times with one outcome required; distinct = distinct line; nontrivial = all",
 		Run:  runHostile,
 	})
 }
@@ -1915,6 +1918,10 @@ func runHostile(ctx *Ctx) {
 					}
 					rdrCase(ctx, b, junk, "replay")
 				}
+			case strings.HasPrefix(l, "#extent "):
+				replayExtent(ctx, l)
+			case strings.HasPrefix(l, "#repeat "):
+				replayRepeat(ctx, l)
 			case strings.HasPrefix(l, "#arch32 "):
 				f := strings.Fields(l)
 				if len(f) == 3 {
@@ -1949,6 +1956,9 @@ func runHostile(ctx *Ctx) {
 	phase("deep", func() { runDeep(ctx, deepSpecs(ctx.Thor)) })
 	phase("loop", func() { runLoops(ctx, nil) })
 	phase("arch32", func() { runArch32(ctx, nil) })
+	// the two phases of hostile_extent.go come last: they draw from ctx.R and leave the streams of the others alone
+	phase("extent", func() { runExtent(ctx) })
+	phase("repeat", func() { runRepeat(ctx) })
 }
 
 var _ = hex.EncodeToString
